@@ -71,7 +71,8 @@ var harness = &simcore.Harness{
 	Props:  []string{"C17"},
 	Config: genConfig,
 	New:    newSim,
-	MaxOps: 400,
+	MaxOps:     400,
+	RunTimeout: 60 * time.Second,
 	Real: []string{
 		"node.NewNode (real wiring of every reactor over MemDB stores, real FilePV, real WAL file on tmpfs, handshake with the recording application); node.Start is never called",
 		"consensus.Reactor + consensus.State (receiveRoutine, timeout ticker, WAL, per-peer gossipData/gossipVotes/queryMaj23 routines, peerStatsRoutine, updateRoundStateRoutine) on the bubble's fake clock; consensus.MsgFromProto / ValidateBasic of every message",
@@ -84,7 +85,7 @@ var harness = &simcore.Harness{
 		"PEX reactor is registered and receives, but is not started (its ensurePeersRoutine would dial real sockets)",
 		"application: recording app; the snapshot connection is scripted (lists 2 snapshots, serves their chunks, accepts offered snapshots)",
 		"state sync state provider: stub returning fixed app hash / state / commit",
-		"validator 2 (power 1 of 11) is held by the simulator: it signs honest probe votes / evidence and, through hostile peers, validly signed hostile proposals and votes",
+		"validator 2 (power 3 of 10) is held by the simulator: it signs honest probe votes / evidence and, through hostile peers, validly signed hostile proposals and votes",
 	},
 	Assumptions: []string{
 		"a panic inside Receive on the peer's receive goroutine is 'peer dropped' (MConnection._recover); a panic anywhere else is a crash. A crash in a goroutine the node spawned itself kills the worker process (exit 2, seed printed): such crashes are predicted one step ahead by probing the peer state the hostile message left behind with the same BitArray operations the gossip routines perform (sig gossip-crash-*)",
@@ -461,6 +462,7 @@ type sim struct {
 	evDone   map[int64]bool
 	lastPex  time.Time
 	pexCount int
+	pexAddrs int // addresses hostile peers have offered so far
 	lastBig     string // kind of the last delivered hostile message that carried a large size
 	lastBigDesc string
 	closed   bool
@@ -476,9 +478,11 @@ type sim struct {
 	memBase runtime.MemStats
 }
 
+// the node alone holds more than 2/3 of the power (it commits on its own); validator 2 holds
+// less than 1/3 and is the proposer of about 3 rounds in 10
 const (
-	nodePower = 10
-	val2Power = 1
+	nodePower = 7
+	val2Power = 3
 )
 
 func newSim(env *simcore.Env, c simcore.Op) simcore.Sim {
@@ -507,6 +511,7 @@ func newSim(env *simcore.Env, c simcore.Op) simcore.Sim {
 	time.Sleep(37 * time.Microsecond)
 	env.Settle()
 	s.honest = s.join(0, false, false, false, nil)
+	runtime.GC()
 	runtime.ReadMemStats(&s.memBase)
 	return s
 }
@@ -945,7 +950,7 @@ func (s *sim) memAfter(mark memMark, msgLen int, _ time.Duration, ctx string, pm
 func (s *sim) quarantineAll(why string) {
 	for _, idx := range s.order {
 		pm := s.peers[idx]
-		if pm.hostile && pm.live && !pm.pending {
+		if in, run := s.connected(pm); pm.hostile && pm.live && !pm.pending && in && run {
 			pm.left = true
 			s.sw.StopPeerGracefully(pm.sp)
 			s.quar++
@@ -953,6 +958,7 @@ func (s *sim) quarantineAll(why string) {
 	}
 	s.env.Settle()
 	s.env.Count("probe.quarantine")
+	s.observePeers("quarantine")
 }
 
 // ---------------------------------------------------------------- gossip crash prediction
@@ -1055,6 +1061,9 @@ func (s *sim) probeGossip(ctx string) {
 			break
 		}
 	}
+	if s.quar > 0 {
+		s.observePeers(ctx + "/quarantine")
+	}
 }
 
 // ---------------------------------------------------------------- goroutine census
@@ -1147,6 +1156,10 @@ func (s *sim) Next(rng *simcore.RNG) simcore.Op {
 	s.opsLeft--
 	hostile := s.livePeers(true)
 	gone := s.gonePeers()
+	if debugLog == "3" {
+		rs := s.conS.GetRoundState()
+		fmt.Fprintf(os.Stderr, "NEXT t=%v live=%v gone=%v hrs=%d/%d/%d store=%d\n", s.elapsed(), hostile, gone, rs.Height, rs.Round, rs.Step, s.storeHeight())
+	}
 	w := make([]int, 8)
 	if len(hostile) < s.cfg.Int("npeers") && s.nextIdx < 12 {
 		w[0] = 10
@@ -1174,9 +1187,19 @@ func (s *sim) Next(rng *simcore.RNG) simcore.Op {
 		}
 		return op
 	case 1:
+		pm := s.peers[hostile[rng.Intn(len(hostile))]]
 		op := s.genHostile(rng)
+		if rng.Bool(0.6) {
+			// prefer messages that do not get their sender dropped on the spot: peer state builds up
+			for try := 0; try < 3; try++ {
+				if h := s.buildHostileX(op, pm, true); h != nil && h.must == "" {
+					break
+				}
+				op = s.genHostile(rng)
+			}
+		}
 		op["a"] = "x"
-		op["p"] = hostile[rng.Intn(len(hostile))]
+		op["p"] = pm.idx
 		return op
 	case 2:
 		return simcore.Op{"a": "dup", "p": hostile[rng.Intn(len(hostile))], "n": rng.Range(1, 3)}
